@@ -323,10 +323,11 @@ func (v *AVCDecoderConfigurationRecord) MarshalBinary() ([]byte, error) {
 	buf.WriteByte(byte(v.AVCProfileIndication))
 	buf.WriteByte(byte(v.profileCompatibility))
 	buf.WriteByte(byte(v.AVCLevelIndication))
-	buf.WriteByte(byte(v.LengthSizeMinusOne))
+	// reserved = '111111'b; lengthSizeMinusOne, 2bits.
+	buf.WriteByte(byte(v.LengthSizeMinusOne)&0x03 | 0xfc)
 
-	// numOfSequenceParameterSets
-	buf.WriteByte(byte(len(v.SequenceParameterSetNALUnits)))
+	// reserved = '111'b; numOfSequenceParameterSets, 5bits.
+	buf.WriteByte(byte(len(v.SequenceParameterSetNALUnits))&0x1f | 0xe0)
 	for _, sps := range v.SequenceParameterSetNALUnits {
 		b, err := sps.MarshalBinary()
 		if err != nil {
